@@ -459,6 +459,22 @@ def run_check(prop, tier, seed, repo, jobs=None, only=None, verbose=False, exact
                     d["case"], d["paths"], d["discharged"], d["obligations"], len(d["violations"]),
                     len(d["known_hits"]), len(d["inconclusive"]), len(d["harness_errors"]), d["wall_s"]),
                     flush=True)
+            if d["violations"] and os.environ.get("EVOVERIF_FAILFAST", "1") != "0" and len(results) < len(cases):
+                # a counterexample has been replayed on the real code: the verdict of this run is VIOLATION whatever
+                # the remaining cases say (on a broken tree they mostly run into their time-outs); stop them
+                done = {r["case"] for r in results}
+                left = [c["name"] for c in cases if c["name"] not in done]
+                d["notes"].append("stopped after the first violation that replayed on the real code; %d case(s) not "
+                                  "finished: %s" % (len(left), ", ".join(left[:40])))
+                for fu in futs:
+                    fu.cancel()
+                for pr in list(getattr(ex, "_processes", {}).values()):
+                    try:
+                        pr.kill()
+                    except Exception:      # noqa: BLE001
+                        pass
+                ex.shutdown(wait=False, cancel_futures=True)
+                break
     results.sort(key=lambda d: d["case"])
     return finish(prop, tier, seed, h, cases, results, time.time() - t0)
 
